@@ -8,6 +8,8 @@ import "github.com/gopherjs/gopherjs/js"
 // path to it, so callers are compiled in resumable form.
 func maybe(k int) {
 	if js.Global.Call("simYield", k).Bool() {
+		saved := Cur
+		defer func() { Cur = saved }()
 		c := make(chan struct{})
 		js.Global.Call("$setTimeout", js.InternalObject(func() { close(c) }), js.Global.Call("simDelay").Int())
 		<-c
